@@ -1,7 +1,7 @@
 /-
-C19, thorough tier — the ((11,2,5)) code (31 713 errors below the distance).
+C19, thorough tier — the ((11,2,5)) code (31 713 errors below the distance; ≈ 2–4 min of kernel time).
 -/
-import NumqiModel.Generated.QecCircuits
+import NumqiProps.C19
 
 namespace Numqi.C19
 open Numqi Numqi.Qec Numqi.Qec.Generated
@@ -11,5 +11,10 @@ set_option maxRecDepth 100000
 theorem code11_2_5_klCheck : klCheck code11_2_5 = true := by decide +kernel
 theorem code11_2_5_listed : listedCheck code11_2_5 = true := by decide +kernel
 theorem code11_2_5_stabCirc : stabCircImplCheck code11_2_5 = true := by decide +kernel
+
+/-- **((11,2,5))**: orthonormal code words, Knill–Laflamme for every error of weight < 5, the ten listed
+stabilizers fix the code words, the ten shipped circuits are those operators. -/
+theorem code11_2_5_holds : Holds code11_2_5 :=
+  holds_of_checks _ code11_2_5_klCheck code11_2_5_listed code11_2_5_stabCirc
 
 end Numqi.C19
